@@ -339,9 +339,108 @@ let node_scenario a =
   let (_, outs) = NodeSys.srun NodeSys.sys0 (L.map node_op a) in
   S.concat " " (L.map (node_out (ref [])) outs)
 
+
+(* ---- C20: configuration merging ---- *)
+let cfg_items spec =
+  if spec = "-" then [] else
+  L.filter_map (fun kv -> if kv = "" then None else
+    let p = String.index kv '=' in Some (String.sub kv 0 p, String.sub kv (p + 1) (String.length kv - p - 1)))
+    (String.split_on_char ';' spec)
+let cfg_list v = if v = "" then [] else String.split_on_char ',' v
+let cfg_n v = n_of_int (int_of_string v)
+let cfg_get items k = L.assoc_opt k items
+let cfg_opt items k = match cfg_get items k with Some v -> Some (cfg_n v) | None -> None
+let cfg_optb items k = match cfg_get items k with Some v -> Some (v = "1") | None -> None
+let cfg_nl v = L.map cfg_n (cfg_list v)
+let cfg_kv x = let p = String.index x ':' in (cfg_n (String.sub x 0 p), cfg_n (String.sub x (p + 1) (String.length x - p - 1)))
+
+let cfg_file spec : ConfigMerge.config_file =
+  let it = cfg_items spec in
+  let has ks = L.exists (fun k -> cfg_get it k <> None) ks in
+  let o = cfg_opt it in
+  { ConfigMerge.cf_dev =
+      (if has ["device"; "dtype"; "dname"; "dpath"; "dfix"] then
+         Some { ConfigMerge.cfd_type = o "dtype"; cfd_name = o "dname"; cfd_path = o "dpath"; cfd_fix = cfg_optb it "dfix" }
+       else None);
+    cf_ip = o "ip";
+    cf_advertise = (match cfg_get it "adv" with Some v -> Some (cfg_nl v) | None -> None);
+    cf_ifup = o "ifup"; cf_ifdown = o "ifdown";
+    cf_crypto = { ConfigMerge.cc_password = o "pw"; cc_private = o "priv"; cc_public = o "pub";
+                  cc_trusted = (match cfg_get it "trusted" with Some v -> cfg_nl v | None -> []);
+                  cc_algos = (match cfg_get it "algos" with Some v -> cfg_nl v | None -> []) };
+    cf_listen = o "listen";
+    cf_peers = (match cfg_get it "peers" with Some v -> Some (cfg_nl v) | None -> None);
+    cf_peer_timeout = o "pt"; cf_keepalive = o "ka";
+    cf_beacon_ =
+      (if has ["beacon"; "bstore"; "bload"; "bint"; "bpw"] then
+         Some { ConfigMerge.cfb_store = o "bstore"; cfb_load = o "bload"; cfb_interval = o "bint"; cfb_password = o "bpw" }
+       else None);
+    cf_mode = o "mode"; cf_switch_timeout = o "st";
+    cf_claims = (match cfg_get it "claims" with Some v -> Some (cfg_nl v) | None -> None);
+    cf_auto_claim = cfg_optb it "ac"; cf_port_forwarding = cfg_optb it "pf";
+    cf_pid_file = o "pid"; cf_stats_file = o "stats";
+    cf_statsd_ =
+      (if has ["statsd"; "sdserver"; "sdprefix"] then Some { ConfigMerge.cfs_server = o "sdserver"; cfs_prefix = o "sdprefix" } else None);
+    cf_user = o "user"; cf_group = o "group"; cf_hook = o "hook";
+    cf_hooks = (match cfg_get it "hooks" with Some v -> L.map cfg_kv (cfg_list v) | None -> []) }
+
+let cfg_args spec : ConfigMerge.args =
+  let it = cfg_items spec in
+  let o = cfg_opt it in
+  let fl k = cfg_get it k <> None in
+  let ls k = match cfg_get it k with Some v -> cfg_nl v | None -> [] in
+  { ConfigMerge.a_type = o "type"; a_device = o "device"; a_device_path = o "dpath"; a_fix_rp_filter = fl "fix";
+    a_ip = o "ip"; a_ifup = o "ifup"; a_advertise = ls "adv"; a_ifdown = o "ifdown";
+    a_listen = o "listen"; a_peers = ls "peers"; a_peer_timeout = o "pt"; a_keepalive = o "ka";
+    a_beacon_store = o "bstore"; a_beacon_load = o "bload"; a_beacon_interval = o "bint"; a_beacon_password = o "bpw";
+    a_mode = o "mode"; a_switch_timeout = o "st"; a_claims = ls "claims";
+    a_no_auto_claim = fl "noac"; a_no_port_forwarding = fl "nopf"; a_daemon = fl "daemon";
+    a_pid_file = o "pid"; a_stats_file = o "stats"; a_statsd_server = o "sdserver"; a_statsd_prefix = o "sdprefix";
+    a_user = o "user"; a_group = o "group";
+    a_password = o "pw"; a_public_key = o "pub"; a_private_key = o "priv";
+    a_trusted = ls "trusted"; a_algos = ls "algos";
+    a_hook = (match cfg_get it "hook" with
+              | Some v -> L.map (fun x -> if String.contains x ':' then (let (e, s) = cfg_kv x in ConfigMerge.HEvent (e, s))
+                                          else ConfigMerge.HPlain (cfg_n x)) (cfg_list v)
+              | None -> []) }
+
+let cfg_str n =
+  let i = int_of_n n in
+  if i = 1000001 then "vpncloud%d" else if i = 1000002 then "3210" else "s" ^ string_of_int i
+let cfg_o = function Some n -> cfg_str n | None -> "-"
+let cfg_on = function Some n -> string_of_int (int_of_n n) | None -> "-"
+let cfg_l f l = if l = [] then "-" else S.concat "," (L.map f l)
+let cfg_algo n = [| "plain"; "aes128"; "aes256"; "chacha20" |].(int_of_n n)
+let cfg_dump (c : ConfigMerge.config) =
+  let open ConfigMerge in
+  let hooks = L.sort compare (L.map (fun (k, v) -> Printf.sprintf "e%d:%s" (int_of_n k) (cfg_str v)) c.hooks) in
+  S.concat ";" [
+    "dtype=" ^ string_of_int (int_of_n c.device_type); "dname=" ^ cfg_str c.device_name; "dpath=" ^ cfg_o c.device_path;
+    "fix=" ^ b2s c.fix_rp_filter; "ip=" ^ cfg_o c.ip; "adv=" ^ cfg_l cfg_str c.advertise; "ifup=" ^ cfg_o c.ifup; "ifdown=" ^ cfg_o c.ifdown;
+    "pw=" ^ cfg_o c.crypto.cc_password; "priv=" ^ cfg_o c.crypto.cc_private; "pub=" ^ cfg_o c.crypto.cc_public;
+    "trusted=" ^ cfg_l cfg_str c.crypto.cc_trusted; "algos=" ^ cfg_l cfg_algo c.crypto.cc_algos;
+    "listen=" ^ cfg_str c.listen; "peers=" ^ cfg_l cfg_str c.peers; "pt=" ^ string_of_int (int_of_n c.peer_timeout); "ka=" ^ cfg_on c.keepalive;
+    "bstore=" ^ cfg_o c.beacon_store; "bload=" ^ cfg_o c.beacon_load; "bint=" ^ string_of_int (int_of_n c.beacon_interval); "bpw=" ^ cfg_o c.beacon_password;
+    "mode=" ^ string_of_int (int_of_n c.mode); "st=" ^ string_of_int (int_of_n c.switch_timeout); "claims=" ^ cfg_l cfg_str c.claims;
+    "ac=" ^ b2s c.auto_claim; "pf=" ^ b2s c.port_forwarding; "daemon=" ^ b2s c.daemonize;
+    "pid=" ^ cfg_o c.pid_file; "stats=" ^ cfg_o c.stats_file; "sdserver=" ^ cfg_o c.statsd_server; "sdprefix=" ^ cfg_o c.statsd_prefix;
+    "user=" ^ cfg_o c.user; "group=" ^ cfg_o c.group; "hook=" ^ cfg_o c.hook; "hooks=" ^ cfg_l (fun x -> x) hooks ]
+
+let cfg_op a =
+  let c = ConfigMerge.effective (cfg_file (L.nth a 0)) (cfg_args (L.nth a 1)) in
+  Printf.sprintf "eff %s rt %s" (cfg_dump c) (cfg_dump (ConfigMerge.file_roundtrip c))
+
+let netmask_op a =
+  match Netmask.parse_ip_netmask (unhex (L.nth a 0)) (L.nth a 1 = "1") with
+  | Base.Ok m -> Printf.sprintf "ok %08x" (int_of_n m)
+  | Base.Err _ -> "err"
+  | Base.Panic _ -> "panic"
+
 let run (op : string) (a : string list) : string option =
   let arg i = L.nth a i in
   match op with
+  | "cfg" -> Some (cfg_op a)
+  | "netmask" -> Some (netmask_op a)
   | "frame" -> Some (res_pair (Dissect.frame_parse (unhex (arg 0))))
   | "packet" -> Some (res_pair (Dissect.packet_parse (unhex (arg 0))))
   | "matches" -> Some (b2s (RangeMatch.range_matches (unhex (arg 0)) (n_of_int (int_of_string (arg 1))) (unhex (arg 2))))
